@@ -119,7 +119,14 @@ def run_item(item):
             i = A.x86mnemo.dis(c[0])
             rendered.append([c[0].hex(), str(i), i.__str__('att_syntax')])
             H.emul_lines(m, [i])
-        return {'dump_id': m.dump_id(), 'dump_mem': m.dump_mem(), 'rendered': rendered}
+        out = {'dump_id': m.dump_id(), 'dump_mem': m.dump_mem(), 'rendered': rendered}
+        # the same program once more in the same process, on a second machine: identical dumps
+        m2 = H.x86_machine()
+        for line in item['lines']:
+            alloc_noise()
+            H.emul_lines(m2, [A.x86mnemo.dis(A.x86mnemo.asm(line)[0])])
+        out['rerun_equal'] = (m2.dump_id() == out['dump_id'] and m2.dump_mem() == out['dump_mem'])
+        return out
     if k == 'symline':
         # a line whose operand adds several symbols, taken through the assembler's own flow
         # (parse_mnemo -> normalize_args -> asm_candidates) and rendered / lifted
